@@ -366,6 +366,34 @@ Proof.
       repeat split; auto; [apply dedup_nodup | apply chunk_length | apply chunk_rows; auto].
 Qed.
 
+(* the constructors on another number's variable list: try_new, then a re-listing that cannot fail *)
+Theorem dual_try_new_from_total other r vars d :
+  dual_try_new_from other r vars d <> Panic /\
+  (dual_try_new_from other r vars d = Err <-> dual_try_new r vars d = Err) /\
+  forall v, dual_try_new_from other r vars d = Ok v -> vs v = other /\ length (du v) = length other.
+Proof.
+  unfold dual_try_new_from. destruct (dual_try_new_spec r vars d) as [NP W].
+  destruct (dual_try_new r vars d) as [n| |] eqn:E; cbn [obind]; try congruence.
+  - split; [discriminate|]. split; [split; discriminate|]. intros v [= <-].
+    destruct (W n eq_refl) as [_ L]. unfold to_new_vars_auto.
+    unfold vars_cmp.
+    destruct (Nat.eqb (length (vs n)) (length other) && names_zip_all (vs n) other) eqn:Q.
+    + apply andb_true_iff in Q. destruct Q as [Q _]. apply Nat.eqb_eq in Q. cbn. split; [reflexivity|congruence].
+    + destruct (Nat.leb (length other) (length (vs n)) && forallb (fun v => mem v (vs n)) other);
+        [|destruct (Nat.ltb (length (vs n)) (length other) && forallb (fun v => mem v other) (vs n))];
+        cbn; (split; [reflexivity|apply map_length]).
+  - split; [discriminate|]. split; [tauto|]. discriminate.
+Qed.
+Theorem dual2_try_new_from_total other r vars d d2 :
+  dual2_try_new_from other r vars d d2 <> Panic /\
+  (dual2_try_new_from other r vars d d2 = Err <-> dual2_try_new r vars d d2 = Err).
+Proof.
+  unfold dual2_try_new_from. destruct (dual2_try_new_spec r vars d d2) as [NP W].
+  destruct (dual2_try_new r vars d d2) as [n| |]; cbn [obind]; try congruence.
+  - split; [discriminate|]. split; discriminate.
+  - split; [discriminate|]. tauto.
+Qed.
+
 (* currencies, pairs, quotes: the constructors of Model/FX.v cannot abort *)
 Definition ccy_shape (c : name) : Prop := str_bytes c = 3 /\ map ascii_lower c = c.
 Lemma ascii_lower_idem c : ascii_lower (ascii_lower c) = ascii_lower c.
